@@ -45,6 +45,12 @@ LEVEL_TEXT += (
     "exhaustion raises; convergence itself stays undecided. (R3) "
     "isoparametric evaluators allocate (cells, points) for shared and "
     "per-cell points, with and without subset (finding F26, fixed).")
+LEVEL_TEXT += (
+    " Added in the hunting round (defects found by independent agents "
+    "on the unchanged tree, DESIGN.md 9.4 / 9.6): "
+    "the Newton iteration starts strictly inside every reference cell; "
+    "no DG mesh class may have a boundary element while the facet map "
+    "indexes by vertex numbers (open finding).")
 LEVEL_NOTE = (
     "Trusted: numpy einsum/tile/empty semantics. Not decided: Newton "
     "iteration of the isoparametric inverse, curved second-order meshes, "
